@@ -149,7 +149,8 @@ def run_real(cfg):
             last_progress = time.monotonic()
     th = threading.Thread(target=releaser, daemon=True)
     try:
-        tasks = [U.TNx(label=i, talk=tuple(tuple(s) for s in cfg['scripts'][i])) for i in range(len(cfg['scripts']))]
+        behs = cfg.get('behs') or ['ok'] * len(cfg['scripts'])
+        tasks = [U.TNx(label=i, beh=behs[i], talk=tuple(tuple(s) for s in cfg['scripts'][i])) for i in range(len(cfg['scripts']))]
         lab = Lab(storage=None, runner_backend=cfg['backend'], max_workers=cfg['max_workers'], notebook=False)
         th.start()
         import contextlib
@@ -185,6 +186,8 @@ def expected_counts(cfg):
 def observed_counts(msgs, want):
     got = Counter()
     for m in msgs:
+        if m.startswith("Task '"):
+            continue          # the coordinator's own failure report quotes the task (whose parameters spell the tokens)
         for token in want:
             got[token] += m.count(token)
     return got
@@ -239,6 +242,7 @@ def run(prop, report, tier, seed, replay=None):
             rng.shuffle(order)
             cfgs.append(dict(backend='fork' if (i % 5 or tier == 'quick' and i > 1) else 'spawn', max_workers=rng.choice([1, 2, None]),
                              scripts=[gen_script(rng, t) or [['print', f'P{t}-x']] for t in range(n)], order=order,
+                             behs=[('raise' if rng.random() < 0.35 else 'ok') for _ in range(n)],
                              gap=rng.choice([0.0, 0.0, 0.02])))
     for cfg in cfgs:
         msgs, late = run_real(cfg)
